@@ -31,6 +31,8 @@ M = [
  ("optional-bitmap-order", "src/free5gclib/aper/marshal.go", "					optionalPresents <<= 1\n					if !v.Field(i).IsNil() {\n						optionalPresents++\n					}", "					if !v.Field(i).IsNil() {\n						optionalPresents |= 1 << (optionalCount - 1)\n					}", ["C03", "C04"]),
  ("decoder-missing-bounds-check", "src/free5gclib/aper/aper.go", "		if (rawLength + pd.byteOffset) > uint64(len(pd.bytes)) {\n			err := fmt.Errorf(\"per data out of range \")\n			return octetString, err\n		}", "", ["C14"]),
  ("choice-present-gt", "src/free5gclib/aper/aper.go", "				} else if present >= structType.NumField() {\n					return fmt.Errorf(\"CHOICE Present is bigger than number of struct field\")", "				} else if present > structType.NumField() {\n					return fmt.Errorf(\"CHOICE Present is bigger than number of struct field\")", ["C14"]),
+ ("seqof-scratch-element-reused", "src/free5gclib/aper/aper.go", "			fragment := reflect.MakeSlice(sliceType, int(part), int(part))\n			for i := 0; i < int(part); i++ {\n				if err := parseField(fragment.Index(i), pd, params); err != nil {\n					return sliceContent, err\n				}\n			}", "			fragment := reflect.MakeSlice(sliceType, int(part), int(part))\n			element := reflect.New(sliceType.Elem()).Elem()\n			for i := 0; i < int(part); i++ {\n				if err := parseField(element, pd, params); err != nil {\n					return sliceContent, err\n				}\n				fragment.Index(i).Set(element)\n			}", ["C04"]),
+ ("seqof-fragment-mask", "src/free5gclib/aper/marshal.go", "			} else if part >= 16384 {\n				part &= 0xc000\n			}\n			if err := pd.appendLength(-1, uint64(part)); err != nil {", "			} else if part >= 16384 {\n				part &= 0x8000\n			}\n			if err := pd.appendLength(-1, uint64(part)); err != nil {", ["C03", "C04"]),
  ("tag-amfuengapid-ub", "src/free5gclib/ngap/ngapType/AMFUENGAPID.go", "valueUB:1099511627775", "valueUB:1099511627776", ["C03"]),
  ("tag-ranuengapid-ub", "src/free5gclib/ngap/ngapType/RANUENGAPID.go", "valueUB:4294967295", "valueUB:4294967296", ["C03", "C13", "C01"]),
  # C05 / C07 / C15
